@@ -81,8 +81,11 @@ pub fn max_end(items: &Vec<BedEntry>) -> (r: u32)
 //@presub /use libdeflater::\{CompressionLvl, Compressor\};\n/ => ""
 //@presub /let mut compressor = Compressor::new\(CompressionLvl::default\(\)\);\s*let max_sz = compressor\.zlib_compress_bound\(bytes\.len\(\)\);\s*let mut compressed_data = vec!\[0; max_sz\];\s*let actual_sz = compressor\s*\.zlib_compress\(&bytes, &mut compressed_data\)\s*\.unwrap\(\);\s*compressed_data\.(?:resize\(actual_sz, 0\)|truncate\(actual_sz\));/ => let compressed_data = deflate_vec(&bytes); let actual_sz = compressed_data.len(); let max_sz = actual_sz;
 //@presub /items_in_section\s*\.iter\(\)\s*\.map\(\|item\| item\.end\)\s*\.fold\(items_in_section\[0\]\.end, u32::max\)/ => max_end(&items_in_section) min=0
-//@sub /let mut bytes = Vec::with_capacity\(items_in_section\.len\(\) \* 30\);/ => let mut bytes = Sink::with_capacity(0);
-//@sub /\(bytes, 0\)/ => (bytes.bytes, 0) min=0
+//@sub /let mut bytes = Vec::with_capacity\(((?:\d+|items_in_section\.len\(\)|[-+*\/()]|\s)*)\);/ => let mut bytes = Sink::with_capacity(0); CAP{\1}CAP
+//@sub / CAP\{[^-\/{}]*\}CAP/ => "" min=0
+//@sub /items_in_section\.len\(\)(?=[-+*()\d\s]*(?:items_in_section\.len\(\)[-+*()\d\s]*)*\}CAP)/ => items_in_section@.len() min=0
+//@sub /CAP\{([^\/{}]*)\}CAP/ => assert((\1) >= 0); min=0
+//@sub /\(bytes, (\d+)\)/ => (bytes.bytes, \1) min=0
 //@sub /\}\s*else\s*\{\s*bytes\s*\}/ => } else { bytes.bytes } min=0
 //@sub /io::Result</ => Result<
 //@sub /usize\)> \{/ => usize), IoError> {
